@@ -341,6 +341,10 @@ theorem convergenceCheck_afterSweep (cfg : Cfg α) (s : St α) (e : α) :
 def nextTarget (cfg : Cfg α) (s : St α) : α :=
   if s.tsIndex + 1 < cfg.steps then (cfg.times[s.tsIndex + 2]?).getD s.tgtT else s.tgtT
 
+/-- `previous_energy` after a converged sweep: untouched in the code as found, `None` in the
+repaired variant. -/
+def keptPrev (cfg : Cfg α) (s : St α) : Option α := if cfg.resetPrev then none else s.prevE
+
 /-- **Converged sweep**: the step completes (once), time advances to the target, the sweep
 count is reset, `previous_energy` is *kept as it was* (it is neither reset nor set to the
 converged energy), `current_energy` is cleared, the object is at a sweep start again. -/
@@ -348,7 +352,7 @@ theorem sweepStep_converged (cfg : Cfg α) (s : St α) (e : α) (hs : SweepStart
     (ht : TimesOk cfg) (hc : Conv cfg s e) :
     sweepStep cfg s e =
       ⟨{ s with curT := s.tgtT, sweepCount := 0, tsIndex := s.tsIndex + 1,
-                tgtT := nextTarget cfg s, curE := none },
+                tgtT := nextTarget cfg s, curE := none, prevE := keptPrev cfg s },
        [.sweepDone true, .stepDone s.tsIndex], none⟩ := by
   obtain ⟨hd, hi, hl, hr, hce⟩ := hs
   have hcc := (convergenceCheck_afterSweep cfg s e).mpr hc
@@ -356,15 +360,15 @@ theorem sweepStep_converged (cfg : Cfg α) (s : St α) (e : α) (hs : SweepStart
   rw [if_pos hcc]
   unfold timestepComplete nextTarget
   by_cases hf : s.tsIndex + 1 < cfg.steps
-  · have hfin : finished cfg ({ ({ afterSweep s (some e) with curT := (afterSweep s (some e)).tgtT, sweepCount := 0 } : St α) with tsIndex := (afterSweep s (some e)).tsIndex + 1 } : St α) = false := by
+  · have hfin : finished cfg ({ ({ afterSweep s (some e) with curT := (afterSweep s (some e)).tgtT, sweepCount := 0, prevE := if cfg.resetPrev then none else (afterSweep s (some e)).prevE } : St α) with tsIndex := (afterSweep s (some e)).tsIndex + 1 } : St α) = false := by
       unfold finished; exact decide_eq_false (by simp only [afterSweep]; omega)
     have hidx : s.tsIndex + 2 < cfg.times.length := by unfold TimesOk at ht; omega
     simp only [hfin]
-    simp [afterSweep, List.getElem?_eq_getElem hidx, sweepTail, assertsOk, hi, hce, hd, hf, hl, hr]
-  · have hfin : finished cfg ({ ({ afterSweep s (some e) with curT := (afterSweep s (some e)).tgtT, sweepCount := 0 } : St α) with tsIndex := (afterSweep s (some e)).tsIndex + 1 } : St α) = true := by
+    simp [afterSweep, List.getElem?_eq_getElem hidx, sweepTail, assertsOk, hi, hce, hd, hf, hl, hr, keptPrev]
+  · have hfin : finished cfg ({ ({ afterSweep s (some e) with curT := (afterSweep s (some e)).tgtT, sweepCount := 0, prevE := if cfg.resetPrev then none else (afterSweep s (some e)).prevE } : St α) with tsIndex := (afterSweep s (some e)).tsIndex + 1 } : St α) = true := by
       unfold finished; exact decide_eq_true (by simp only [afterSweep]; omega)
     simp only [hfin]
-    simp [afterSweep, sweepTail, assertsOk, hi, hce, hd, hf]
+    simp [afterSweep, sweepTail, assertsOk, hi, hce, hd, hf, keptPrev]
 
 /-- **Unconverged sweep, budget left**: `previous_energy` becomes this sweep's energy. -/
 theorem sweepStep_continue (cfg : Cfg α) (s : St α) (e : α) (hs : SweepStart cfg s)
@@ -402,7 +406,7 @@ theorem sweepStep_cases (cfg : Cfg α) (s : St α) (e : α) (hs : SweepStart cfg
     (ht : TimesOk cfg) :
     (Conv cfg s e ∧ sweepStep cfg s e =
         ⟨{ s with curT := s.tgtT, sweepCount := 0, tsIndex := s.tsIndex + 1,
-                  tgtT := nextTarget cfg s, curE := none },
+                  tgtT := nextTarget cfg s, curE := none, prevE := keptPrev cfg s },
          [.sweepDone true, .stepDone s.tsIndex], none⟩)
     ∨ (¬ Conv cfg s e ∧ s.sweepCount + 2 ≤ cfg.maxSweeps ∧ sweepStep cfg s e =
         ⟨{ s with prevE := some e, sweepCount := s.sweepCount + 1, curE := none },
